@@ -72,7 +72,6 @@ func PackValues(format string, values []rt.Value, budget uint64) (string, uint64
 		case 'L', 'J', 'T':
 			_ = p.align(8) &&
 				p.nextIntValue() &&
-				p.checkBounds(0, math.MaxInt64) &&
 				p.write(8, uint64(p.intVal))
 		case 'i':
 			_ = p.smallOptSize(8) &&
@@ -335,7 +334,7 @@ func (p *packer) packUint() bool {
 		return p.checkBounds(0, math.MaxUint32) && p.write(4, uint32(p.intVal))
 	case n == 8:
 		// It's an uint64
-		return p.checkBounds(0, math.MaxInt64) && p.write(8, uint64(p.intVal))
+		return p.write(8, uint64(p.intVal))
 	case n > 8:
 		// Pad to make up the length
 		if p.byteOrder == binary.BigEndian {
